@@ -30,6 +30,8 @@
         -> N | year month day weekday hour minute second microsecond ampm tzname tzoffset cs ; tokens|-
     pgen.parsetail <same arguments as parser.parse>    `parser.parse` from the `_parse` call to the return, same answer format
     pgen.recombine <tok;tok;…|E> <i,j,…|N>             _recombine_skipped -> [cps,cps,…]
+    pgen.init <info wire (class attributes)> <now_year> <dayfirst> <yearfirst>     parserinfo.__init__ on those class tables
+        -> year century dayfirst yearfirst ; jump keys ; weekdays ; months ; hms ; ampm ; utczone keys ; pertain keys
     pgen.naive <year|-> <month|-> <day|-> <weekday|-> <hour|-> <minute|-> <second|-> <microsecond|-> <default [7 ints]>
                                                        _build_naive -> Y M D h m s us
     pgen.step <info> <year> <century> <fuzzy> <i> <tok;tok;…> <classes> <ymd> <hour|-> <ampm|-> <tzname|N> <tzoffset|->
@@ -226,6 +228,22 @@ def handleFn (op : String) (args : List String) : Option String :=
   | "pgen.recombine", [toks, idxs] => do
     let l ← toks? toks; let is ← (if idxs == "N" then some [] else natList? idxs)
     some (showR showToks (Gen.P.recombineSkipped dflt l is))
+  | "pgen.init", [info, y, df, yf] => do
+    let y ← y.toInt?
+    let grp (s : String) : Option (List (List String)) := (parseGroups? s).map (·.map (·.map String.ofList))
+    let t : PPy.InfoTables ← match info.splitOn ":" with
+      | [hd] => if hd.startsWith "D" then some PPy.stockTables else none
+      | [_, jump, wd, mo, hms, ampm, utc, pert, _] => do
+        pure { JUMP := ← grp jump, WEEKDAYS := ← grp wd, MONTHS := ← grp mo, HMS := ← grp hms, AMPM := ← grp ampm,
+               UTCZONE := ← grp utc, PERTAIN := ← grp pert, TZOFFSET := [] }
+      | _ => none
+    -- printed the way a Python dict holds them: a repeated key keeps its first position and takes the last value
+    let dd (l : List (Token × Nat)) : List (Token × Nat) :=
+      l.foldl (fun acc p => if acc.any (·.1 = p.1) then acc.map (fun q => if q.1 = p.1 then p else q) else acc ++ [p]) []
+    let sk (l : List Token) : String := ",".intercalate ((dd (l.map (·, 0))).map (fun p => showCps p.1))
+    let sd (l : List (Token × Nat)) : String := ",".intercalate ((dd l).map fun p => showCps p.1 ++ "=" ++ toString p.2)
+    some (showR (fun i : Info => s!"{i.year} {i.century} {showB i.dayfirst} {showB i.yearfirst} ; {sk i.jump} ; {sd i.weekdays} ; {sd i.months} ; {sd i.hms} ; {sd i.ampm} ; {sk i.utczoneKeys} ; {sk i.pertain}")
+      (Gen.P.info_init t y (df == "1") (yf == "1")))
   | "pgen.assigntz", [n0, n1, name] => do
     let a ← optName? n0; let b ← optName? n1; let n ← optName? name
     some (showR (fun d : PPy.FoldDt => toString d.fold) (Gen.P.assignTzname dflt { n0 := a, n1 := b } n))
